@@ -240,6 +240,7 @@ def finish(ctx: Context, started: float, seed: int, *, extra_coverage: Optional[
         'notes': ctx.notes,
         'normal_forms_applied': dict(sorted(getattr(ctx.p, 'normal_forms', {}).items())),
         'helpers_inlined': list(getattr(ctx.p, 'inlined', [])),
+        'private_renames': list(getattr(ctx.p, 'private_renames', [])),
     }
     if extra_coverage:
         coverage.update(extra_coverage)
